@@ -72,21 +72,21 @@ class QFSystem(System):
         cfgs = []
         als = _alphabets(tier)
         for name, al in als.items():
-            cfgs.append({"alpha": name, "auto": False, "ops": [], "via_key": False, "depth": None, "cost": 2 ** len(al)})
+            cfgs.append({"alpha": name, "auto": False, "ops": [], "via_key": False, "depth": None, "cost": 30 * 2 ** len(al)})
         # through the key interface
-        cfgs.append({"alpha": "Awrap", "auto": False, "ops": [], "via_key": True, "depth": None, "cost": 2**11})
+        cfgs.append({"alpha": "Awrap", "auto": False, "ops": [], "via_key": True, "depth": None, "cost": 30 * 2**11})
         # automatic + manual resize, merge
         cfgs.append({"alpha": "Asplit", "auto": True, "ops": ["resize", "merge"], "via_key": False, "depth": None,
-                     "cost": 3 * 2**10})
-        cfgs.append({"alpha": "Amid", "auto": True, "ops": ["resize"], "via_key": False, "depth": None, "cost": 3 * 2**11})
+                     "cost": 90 * 2**10})
+        cfgs.append({"alpha": "Amid", "auto": True, "ops": ["resize"], "via_key": False, "depth": None, "cost": 90 * 2**11})
         cfgs.append({"alpha": "Awrap", "auto": False, "ops": ["resize", "merge"], "via_key": False, "depth": None,
-                     "cost": 3 * 2**11})
+                     "cost": 90 * 2**11})
         if prop in ("C14", "C19") and tier == "quick":
             # these are state oracles: a subset of the driver suffices on every change
             cfgs = [c for c in cfgs if c["alpha"] in ("A0", "Awrap", "Asplit")]
         if tier == "thorough":
             cfgs.append({"alpha": "A1", "auto": True, "ops": ["resize", "merge"], "via_key": False, "depth": None,
-                         "cost": 3 * 2**16, "state_cap": 400000})
+                         "cost": 90 * 2**16, "state_cap": 400000})
         if seed:
             k = seed % len(cfgs)
             cfgs = cfgs[k:] + cfgs[:k]
